@@ -98,7 +98,10 @@ class RealWorld:
 
     def __init__(self, desc):
         self.desc = desc
-        ov = {int(e): set(int(x) for x in s) for e, s in desc["overlap"]}
+        # (equal rows of a table share ONE set object, as when a caller writes `team = {1, 2}; {1: team, 2: team}`: the
+        # grid keeps rows of its own, finding K19b)
+        _rows = {}
+        ov = {int(e): _rows.setdefault(frozenset(int(x) for x in s), set(int(x) for x in s)) for e, s in desc["overlap"]}
         if desc.get("overlap0") is not None:
             # a history: the grid was built with another table, which was then replaced through the public
             # `overlapping` setter (whatever the grid derived from the first table must not survive)
@@ -167,7 +170,16 @@ class RealWorld:
     def stat_wire(self):
         ov = [[int(e), sorted(int(x) for x in s)] for e, s in sorted(self.grid.overlapping.items())]
         cfgs = []
-        for a in self.agent_list:
+        # the range a property speaks about is the CONFIGURED one ("FULL" = max(rows, cols) - 1 of the grid the component
+        # was built over), not whatever a constructor wrote into the agent: a wrong resolution must show as a
+        # disagreement, not be copied into the model's input
+        desc = getattr(self, "desc", None) or {}        # (worlds wrapped around an existing simulation have none)
+        g0 = desc.get("grid0")
+        full = (max(int(g0[0]), int(g0[1])) if g0 else max(self.grid.rows, self.grid.cols)) - 1
+        conf = desc.get("agents") or []
+        for i, a in enumerate(self.agent_list):
+            c = conf[i] if i < len(conf) else {}
+            fm, fa, fv = (c.get("move_range") == "FULL", c.get("attack_range") == "FULL", c.get("view_range") == "FULL")
             ip = [] if a.initial_position is None else [[int(a.initial_position[0]), int(a.initial_position[1])]]
             ih = [] if a.initial_health is None else [fr(a.initial_health)]
             mv = isinstance(a, MovingAgent)
@@ -177,12 +189,12 @@ class RealWorld:
             ob = isinstance(a, GridObservingAgent)
             io = [] if (not orr or a.initial_orientation is None) else [int(a.initial_orientation)]
             cfgs.append([int(a.encoding), bool(a.blocking), ip, ih,
-                         mv, _rng(a.move_range, self) if mv else 0,
-                         at, _rng(a.attack_range, self) if at else 0,
+                         mv, (full if fm else _rng(a.move_range, self)) if mv else 0,
+                         at, (full if fa else _rng(a.attack_range, self)) if at else 0,
                          fr(a.attack_strength) if at else [0, 1], fr(a.attack_accuracy) if at else [1, 1],
                          int(a.simultaneous_attacks) if at else 0,
                          am, int(a.initial_ammo) if am else 0,
-                         orr, io, ob, _rng(a.view_range, self) if ob else 0])
+                         orr, io, ob, (full if fv else _rng(a.view_range, self)) if ob else 0])
         return [self.grid.rows, self.grid.cols, ov, cfgs]
 
     def dyn_wire(self):
